@@ -8,77 +8,77 @@ HERE = os.path.dirname(os.path.dirname(os.path.abspath(__file__)))
 CHECKS = {
  "C15": ("exploration",
          "property-based testing + exhaustive table: metamorphic renaming (token streams equal up to a consistent identifier map), independent reserved-word lists, differential execution of the renamed program",
-         "A program and a consistently renamed copy are compiled for DirectX HLSL, Vulkan HLSL or Metal: every identifier to a fresh plain name; 1-3 entities onto words the target reserves (independent lists: 86 C++14 keywords, 9 Metal address-space / stage keywords, 87 HLSL reserved words; also every word x 11 entity kinds exhaustively in a fixed program); 1-3 entities onto name_N forms that collide with generated overload / template-instance names; one name shared by locals of different functions or fields of different structs. The two outputs must have identical token streams up to identifiers with a consistent per-scope identifier map, fixed identifiers unchanged, plain names verbatim, no emitted user name reserved in the target, no two entities of one scope with the same emitted name, and the renamed program must pass the C01/C02 differential executor. 9 900 cases quick, about 200 000 thorough.",
+         "A program and a consistently renamed copy are compiled for DirectX HLSL, Vulkan HLSL or Metal: every identifier to a fresh plain name; 1-3 entities onto words the target reserves (independent lists: 86 C++14 keywords, 9 Metal address-space / stage keywords, 87 HLSL reserved words; also every word x 11 entity kinds exhaustively in a fixed program); 1-3 entities onto name_N forms that collide with generated overload / template-instance names; one name shared by locals of different functions or fields of different structs. The two outputs must have identical token streams up to identifiers with a consistent per-scope identifier map, fixed identifiers unchanged, plain names verbatim, no emitted user name reserved in the target, no two entities of one scope with the same emitted name, and the renamed program must pass the C01/C02 differential executor. 9 900 cases quick, about 200 000 thorough. Also: the 96 hidden-root-name programs of C01 / C02 under the execution oracle.",
          "Reserved-word lists are limited to words every implementation of the target rejects as identifiers; builtin function names are not required to be renamed. RSSL's builtin type names are only used for variables, parameters and members (as type or function names they do not hide the builtin in RSSL itself). Namespaces are not generated.",
          "DESIGN.md section 3, C15"),
  "C03": ("exploration",
          "property-based testing + exhaustive tables: independent IR type lint of accepted programs; single injected typing violations with valid twins must be rejected",
-         "Accepted programs (generated programs with implicit conversions at initialisers, assignments, arguments and returns; every 1-2 operator expression tree on int / float / mixed operands; the repository's .rssl inputs) are type checked and the resulting module is walked by an independent checker with structural types - operand classes and equality for every operator, non-const lvalues for every write, call arity / argument types / out arguments, return types, constructor slots, initialiser shapes, conditions, subscripts, dangling ids - and by RSSL's own get_type asserts. 86 kinds of single typing violations x 15 expression / 5 statement / 3 return contexts x 3 placements (exhaustive on an empty base, random inside generated programs) plus a catalogue of 10 resource-related pairs must be rejected while their valid twins are accepted. Writes through every swizzle of length 1-4 on float2/3/4 in four write positions (8 160 cases) are accepted exactly when all components exist and none repeats. 41 000 cases quick, about 400 000 thorough.",
+         "Accepted programs (generated programs with implicit conversions at initialisers, assignments, arguments and returns; every 1-2 operator expression tree on int / float / mixed operands; the repository's .rssl inputs) are type checked and the resulting module is walked by an independent checker with structural types - operand classes and equality for every operator, non-const lvalues for every write, call arity / argument types / out arguments, return types, constructor slots, initialiser shapes, conditions, subscripts, dangling ids - and by RSSL's own get_type asserts. 86 kinds of single typing violations x 15 expression / 5 statement / 3 return contexts x 3 placements (exhaustive on an empty base, random inside generated programs) plus a catalogue of 10 resource-related pairs must be rejected while their valid twins are accepted. Writes through every swizzle of length 1-4 on float2/3/4 in four write positions (8 160 cases) are accepted exactly when all components exist and none repeats. 41 000 cases quick, about 400 000 thorough. Further exhaustive tables: matrix components _mRC / _RC on every matrix type (1 536 cases); 18 more injected kinds (elements of rvalues, whole const arrays, ++/-- on structs / arrays / enums, case labels).",
          "The linter models the resource-free subset; object types, intrinsic signatures and matrix aggregates are opaque (counted). Violation kinds are the ones HLSL itself rejects; break/continue outside loops are not typing and not covered. One recorded finding: KF-C03-1 (writes to constant buffer members).",
          "DESIGN.md section 3, C03"),
  "C01": ("translation_validation",
          "differential execution (property-based + exhaustive small shapes + coverage-guided libFuzzer stage in the thorough tier): interpreter of the typed IR vs an independent parser and evaluator of the emitted HLSL text",
-         "Every expression tree with 1-2 (quick) / 1-3 (thorough) operator nodes over the whole operator table on int, float and mixed int/float/uint/bool operands, and generated whole programs of the executable resource-free subset, are compiled for DirectX and Vulkan HLSL. The typed IR is run by an interpreter (RSSL's semantics) and the emitted text is parsed by an independent C-like parser and run by an evaluator with HLSL's rules (literal typing, usual arithmetic conversions, copy-in/copy-out) on 3 boundary argument vectors per function; return value, out/inout parameters and static globals are compared bit-exactly. An exhaustive aliasing table (parameter modes x two-statement bodies x arguments drawn from two locals and a static) covers copy-in / copy-out when arguments alias. Every operator tree is additionally run on 8 crafted operand rows (cancellation, absorption, overflow, INT_MIN / -1, shift counts of 32). Generated programs include struct methods, nested namespaces and implicit conversions. 73 000 programs quick, about 1.2 M thorough, followed by a 300 s libFuzzer campaign over mutated generated programs with the same differential oracle in the target.",
+         "Every expression tree with 1-2 (quick) / 1-3 (thorough) operator nodes over the whole operator table on int, float and mixed int/float/uint/bool operands, and generated whole programs of the executable resource-free subset, are compiled for DirectX and Vulkan HLSL. The typed IR is run by an interpreter (RSSL's semantics) and the emitted text is parsed by an independent C-like parser and run by an evaluator with HLSL's rules (literal typing, usual arithmetic conversions, copy-in/copy-out) on 3 boundary argument vectors per function; return value, out/inout parameters and static globals are compared bit-exactly. An exhaustive aliasing table (parameter modes x two-statement bodies x arguments drawn from two locals and a static) covers copy-in / copy-out when arguments alias. Every operator tree is additionally run on 8 crafted operand rows (cancellation, absorption, overflow, INT_MIN / -1, shift counts of 32). Generated programs include struct methods, nested namespaces and implicit conversions. 73 000 programs quick, about 1.2 M thorough, followed by a 300 s libFuzzer campaign over mutated generated programs with the same differential oracle in the target. Tables added after the seeding rounds: multi-dimensional array parameter copies, aggregate-to-scalar casts, one-element vectors, names of the root scope named with :: where a namespace / struct / function declares the same name (96 programs), a static of a namespace next to a local of the same plain name.",
          "Per-program validation by execution on sampled argument vectors, not a proof of equivalence. Trusted: harness/src/irsem.rs, ctext.rs, csem.rs and the shared value library vals.rs (which fixes one meaning for operations HLSL leaves undefined). Matrices and resources are outside the executable subset.",
          "DESIGN.md section 3, C01"),
  "C02": ("translation_validation",
          "differential execution (property-based + exhaustive small shapes + coverage-guided libFuzzer stage in the thorough tier): interpreter of the typed IR vs an independent parser and evaluator of the emitted Metal text under C++ rules",
-         "As C01 for the Metal target: reference parameters alias, calls must match a declared function by arity and tag type, brace initialisation zero-fills, metal:: builtins are mapped by a per-dialect table, implicit parameters for static globals are bound by name and their final values compared with the interpreter's globals, out/inout parameters go through the emitted trampolines. Text that is not meaningful as C++ is a violation. The aliasing table and the crafted operand rows of C01 are run for Metal as well. 49 000 programs quick, about 0.9 M thorough, followed by a 300 s libFuzzer campaign over mutated generated programs with the same differential oracle in the target.",
+         "As C01 for the Metal target: reference parameters alias, calls must match a declared function by arity and tag type, brace initialisation zero-fills, metal:: builtins are mapped by a per-dialect table, implicit parameters for static globals are bound by name and their final values compared with the interpreter's globals, out/inout parameters go through the emitted trampolines. Text that is not meaningful as C++ is a violation. The aliasing table and the crafted operand rows of C01 are run for Metal as well. 49 000 programs quick, about 0.9 M thorough, followed by a 300 s libFuzzer campaign over mutated generated programs with the same differential oracle in the target. Tables added after the seeding rounds: as C01, plus struct-to-base conversions incl. members whose names Metal reserves.",
          "Per-program validation by execution on sampled argument vectors. Static globals are initialised by a pipeline entry point that no-pipeline mode does not emit, so their initial values come from the IR..",
          "DESIGN.md section 3, C02"),
  "C12": ("exploration",
          "property-based testing against a reference C macro expander (hide sets) + metamorphic relations (include pasting, define placement)",
-         "Random macro programs (1-6 object- and function-like macros with 0-3 parameters, self- and mutually-referential bodies, ## pastes, nested invocations in arguments, parenthesised commas, invocations spanning lines, redefinitions and #undef between sites) are preprocessed and the resulting token sequence is compared with a reference expander implementing C's rescanning rules with hide sets; include graphs of 2-5 files with and without #pragma once must equal the text with the includes pasted in place; every split of 1-4 defines between API defines and #define lines must give the same tokens. 60 000 cases quick, 1.4 M thorough.",
+         "Random macro programs (1-6 object- and function-like macros with 0-3 parameters, self- and mutually-referential bodies, ## pastes, nested invocations in arguments, parenthesised commas, invocations spanning lines, redefinitions and #undef between sites) are preprocessed and the resulting token sequence is compared with a reference expander implementing C's rescanning rules with hide sets; include graphs of 2-5 files with and without #pragma once must equal the text with the includes pasted in place; every split of 1-4 defines between API defines and #define lines must give the same tokens. 60 000 cases quick, 1.4 M thorough. Also: redefinitions with another kind or parameter count, with and without #undef (108 cases).",
          "Trusted: the reference expander in harness/src/c12.rs. Function-like macro names always carry a complete argument list (bare names next to parentheses are where the recorded deviation KF-C12-1 lives); inputs whose expansion explodes under KF-C12-1 are predicted with a model of the deviation and excluded (counted).",
          "DESIGN.md section 3, C12"),
  "C09": ("exploration",
          "exhaustive enumeration (depth-2 operator pairs) + property-based testing + coverage-guided libFuzzer stage in the thorough tier: print/parse round-trip",
-         "Syntax trees are produced by parsing explicitly grouped text, so every tree shape over the operator set is reachable: all 3 300 (outer, inner, side) operator combinations at depth 2 exhaustively, random expression trees to depth 6 over every unary/binary/ternary/postfix/call/template-call/cast/subscript/member/sizeof/constructor node and 37 literal spellings in 6 syntactic positions, whole generated programs, the repository's inputs, and the exporters' own output. Each tree is printed for HLSL and for MSL, parsed again and compared with the original after removing locations. 45 000 trees quick, 1.1 M thorough, followed by a 300 s libFuzzer campaign with the round trip as oracle in the target.",
+         "Syntax trees are produced by parsing explicitly grouped text, so every tree shape over the operator set is reachable: all 3 300 (outer, inner, side) operator combinations at depth 2 exhaustively, random expression trees to depth 6 over every unary/binary/ternary/postfix/call/template-call/cast/subscript/member/sizeof/constructor node and 37 literal spellings in 6 syntactic positions, whole generated programs, the repository's inputs, and the exporters' own output. Each tree is printed for HLSL and for MSL, parsed again and compared with the original after removing locations. 45 000 trees quick, 1.1 M thorough, followed by a 300 s libFuzzer campaign with the round trip as oracle in the target. Also: declarator lists (12 declarator forms, singles, ordered pairs and triples, in 5 places: 1 500 cases).",
          "Trees come from the parser (a shape the parser cannot build, such as a negative literal node, is not covered). Unprintable (ambiguous) trees are counted and skipped. One recorded finding: KF-C09-1 (shared root cause with KF-C04-1).",
          "DESIGN.md section 3, C09"),
  "C08": ("exploration",
          "property-based testing under supervised worker processes (panic, process death, CPU budget) + coverage-guided libFuzzer campaign in the thorough tier",
-         "Byte strings, token soups, bracket soups, nested parentheses / blocks / cast-like prefixes, generated programs (valid and with 1-3 structural mutations incl. extreme literals and unterminated constructs), mutated copies of the repository's own inputs and a 45-entry catalogue of unsupported or unusual constructs (also crossed with API defines) are compiled for 5 targets x {all, named, no-pipeline} x layout validation x API defines inside supervised worker processes. A panic (caught, keyed by source file + message), a dead worker (stack overflow, abort), an empty diagnostic or CPU time beyond 2 s per 4 KB (re-run alone before reporting) is a violation. Constant expressions with boundary operands in six constant positions and every binary operator on every pair of 45 boundary constants (73 000 programs, exhaustive) exercise the folding paths. 147 000 inputs quick, 1.8 M thorough, followed by a 600 s libFuzzer campaign (fork mode, all cores) whose artifacts are judged again by this check.",
+         "Byte strings, token soups, bracket soups, nested parentheses / blocks / cast-like prefixes, generated programs (valid and with 1-3 structural mutations incl. extreme literals and unterminated constructs), mutated copies of the repository's own inputs and a 45-entry catalogue of unsupported or unusual constructs (also crossed with API defines) are compiled for 5 targets x {all, named, no-pipeline} x layout validation x API defines inside supervised worker processes. A panic (caught, keyed by source file + message), a dead worker (stack overflow, abort), an empty diagnostic or CPU time beyond 2 s per 4 KB (re-run alone before reporting) is a violation. Constant expressions with boundary operands in six constant positions and every binary operator on every pair of 45 boundary constants (73 000 programs, exhaustive) exercise the folding paths. 147 000 inputs quick, 1.8 M thorough, followed by a 600 s libFuzzer campaign (fork mode, all cores) whose artifacts are judged again by this check. Tables added after the seeding rounds: renamed programs and reserved names next to generated ones, 40 array size expressions x 13 places, 49 self-referential definitions, 11 bind group values x 4 spellings x 7 entities; time-budget failures are reported without shrinking.",
          "Built with debug assertions and overflow checks on (as the repository's cargo test). One recorded finding: KF-C08-1 (slot arithmetic overflow for gigantic resource arrays). Inputs above about 6 KB and memory exhaustion are not explored.",
          "DESIGN.md section 3, C08"),
  "C05": ("exploration",
          "property-based testing: metadata vs annotations parsed back from the emitted text, reachability model for is_used",
-         "Generated programs with 1-10 bound globals of every object kind, arrays, bindless and unbounded arrays, explicit groups in three spellings, names that are reserved in a target language, reader call graphs and 1-3 pipelines are compiled for four target configurations in all / named / no-pipeline mode. The emitted text is scanned for register / vk::binding / vk::offset / [[id]] annotations, entry points and numthreads, and compared in both directions with the metadata (name, group, slot or inline offset, descriptor type via a per-dialect table, count, bindless and static-sampler flags, inline blocks, stage entry points and thread-group sizes); is_used is compared with reachability over the source call graph. 5 000 cases quick, 100 000 thorough.",
+         "Generated programs with 1-10 bound globals of every object kind, arrays, bindless and unbounded arrays, explicit groups in three spellings, names that are reserved in a target language, reader call graphs and 1-3 pipelines are compiled for four target configurations in all / named / no-pipeline mode. The emitted text is scanned for register / vk::binding / vk::offset / [[id]] annotations, entry points and numthreads, and compared in both directions with the metadata (name, group, slot or inline offset, descriptor type via a per-dialect table, count, bindless and static-sampler flags, inline blocks, stage entry points and thread-group sizes); is_used is compared with reachability over the source call graph. 5 000 cases quick, 100 000 thorough. The stage properties of Pipeline blocks come in both orders; the function reported for a stage must be the one the block names for that stage.",
          "Trusted: the line-oriented annotation scanner and the type tables in harness/src/c05.rs; reachability comes from the generator. Metal without a pipeline emits no argument buffers (counted, not compared). One recorded finding: KF-C05-1 (unbounded arrays).",
          "DESIGN.md section 3, C05"),
  "C14": ("exploration",
          "property-based testing: metamorphic relations (trivia insertion, k-line shifts)",
-         "Generated programs - accepted, or rejected through one injected error (incl. errors inside a macro expansion and inside an included file) - are re-compiled under 6 random trivia variants (blanks, tabs, LF/CRLF, line and block comments, backslash splices at every blank/newline and around brackets, semicolons and commas; never after < or >, never inside a #define's name/parameter adjacency) and, for located diagnostics, with k in {1,2,7,50} blank / comment / CRLF lines at the top of the file holding the error and in other files. Outputs, metadata and verdicts must not change; diagnostics keep file, column and message and move by exactly k lines. 3 000 base programs quick (about 20 compilations each), 60 000 thorough.",
+         "Generated programs - accepted, or rejected through one injected error (incl. errors inside a macro expansion and inside an included file) - are re-compiled under 6 random trivia variants (blanks, tabs, LF/CRLF, line and block comments, backslash splices at every blank/newline and around brackets, semicolons and commas; never after < or >, never inside a #define's name/parameter adjacency) and, for located diagnostics, with k in {1,2,7,50} blank / comment / CRLF lines at the top of the file holding the error and in other files. Outputs, metadata and verdicts must not change; diagnostics keep file, column and message and move by exactly k lines. 3 000 base programs quick (about 20 compilations each), 60 000 thorough. Base programs carry #if / #elif conditions over macros; directive lines get comments between their tokens and trivia in front of the line break.",
          "Insertion points are the existing blanks/newlines of the generator's own rendering plus non-merging punctuation, so token boundaries are known by construction. The base message is compared after the file:line:col prefix.",
          "DESIGN.md section 3, C14"),
  "C07": ("exploration",
          "property-based testing: repeated evaluation in one process and in 8 fresh processes (hash-seed schedules)",
-         "Generated inputs sized so that every hash-ordered collection in the anchored passes has several elements (resources over several bind groups incl. buffer addresses, several statics per function for Metal's implicit parameters, names colliding with generated _N suffixes, include graphs with #pragma once, rejected variants) are compiled 4 times in one process - every compile creates fresh HashMaps with fresh seeds - and once in each of 8 freshly spawned worker processes; the complete result (sources, stages, metadata, state or diagnostic) must be identical. A dedicated part declares overload sets of one name (also reserved words) at global scope and in sibling / nested namespaces, so that several scopes need generated names from one base. 2 100 inputs x 4 in-process + 400 inputs x 8 processes quick; 55 000 + 6 000 x 8 thorough.",
+         "Generated inputs sized so that every hash-ordered collection in the anchored passes has several elements (resources over several bind groups incl. buffer addresses, several statics per function for Metal's implicit parameters, names colliding with generated _N suffixes, include graphs with #pragma once, rejected variants) are compiled 4 times in one process - every compile creates fresh HashMaps with fresh seeds - and once in each of 8 freshly spawned worker processes; the complete result (sources, stages, metadata, state or diagnostic) must be identical. A dedicated part declares overload sets of one name (also reserved words) at global scope and in sibling / nested namespaces, so that several scopes need generated names from one base. 2 100 inputs x 4 in-process + 400 inputs x 8 processes quick; 55 000 + 6 000 x 8 thorough. Also: history independence (A, a broken copy of A, A again on one thread, interleaved with another program).",
          "Assumes hash seeds are the only schedule (no clock, thread, address or environment dependence was found by reading). Deleting any of the four sorts named in the property is detected within the quick tier.",
          "DESIGN.md section 3, C07"),
  "C17": ("exploration",
          "property-based testing: metamorphic relations over pipeline requests (all / by name / alone)",
-         "Generated files with 0-4 pipelines (compute, vertex+pixel, mesh+pixel, task+mesh; prefix-related names; shared readers, resources, statics; different default bind groups) are compiled for a random target under the requests all / each name / unknown name / no-pipeline mode. One result per definition in order, by-name equals the element of the whole-file result, unknown name and empty files fail with the documented message, and each pipeline's full snapshot (source, stages, metadata, state or diagnostic) equals the one obtained from the file with all other Pipeline blocks deleted. 2 400 files quick, 60 000 thorough.",
+         "Generated files with 0-4 pipelines (compute, vertex+pixel, mesh+pixel, task+mesh; prefix-related names; shared readers, resources, statics; different default bind groups) are compiled for a random target under the requests all / each name / unknown name / no-pipeline mode. One result per definition in order, by-name equals the element of the whole-file result, unknown name and empty files fail with the documented message, and each pipeline's full snapshot (source, stages, metadata, state or diagnostic) equals the one obtained from the file with all other Pipeline blocks deleted. 2 400 files quick, 60 000 thorough. Pipelines may share the entry points of an earlier pipeline and declare their stages in either order.",
          "A pipeline rejected by a back-end diagnostic must be rejected identically in every request; front-end rejections are skipped and counted. 'Other pipelines absent' is modelled by deleting the Pipeline blocks, keeping their entry functions.",
          "DESIGN.md section 3, C17"),
  "C18": ("exploration",
          "property-based testing: cross-target differential relations",
-         "Generated programs with resources of every kind and 1-3 pipelines, accepted or carrying one injected front-end error, are compiled for DirectX, Vulkan, Vulkan with buffer addresses and Metal. Front-end diagnostics must be identical strings on all targets, DirectX and Vulkan must succeed or fail together with texts equal up to binding/attribute annotations, and all successful targets must report the same stages, thread-group sizes, pipeline state and binding name/type/count sets (static samplers and buffer addresses aside). Includes inputs that test __HLSL_VERSION and defined(RSSL_TARGET_*). 3 000 programs x 4 targets quick, 80 000 thorough.",
+         "Generated programs with resources of every kind and 1-3 pipelines, accepted or carrying one injected front-end error, are compiled for DirectX, Vulkan, Vulkan with buffer addresses and Metal. Front-end diagnostics must be identical strings on all targets, DirectX and Vulkan must succeed or fail together with texts equal up to binding/attribute annotations, and all successful targets must report the same stages, thread-group sizes, pipeline state and binding name/type/count sets (static samplers and buffer addresses aside). Includes inputs that test __HLSL_VERSION and defined(RSSL_TARGET_*). 3 000 programs x 4 targets quick, 80 000 thorough. The scene generator also declares empty cbuffers.",
          "Back-end diagnostics are recognised by their 'hlsl generate/format' / 'metal generate/format' prefix.",
          "DESIGN.md section 3, C18"),
  "C04": ("exploration",
          "property-based testing + coverage-guided libFuzzer stage in the thorough tier: round-trip (compile o compile fixpoint) over generated programs and the third-party corpus",
-         "For every generated program (typed generator over structs, enums, templates, overloads, statics, arrays, all statement and operator forms) and every one of the 31 third-party corpus entry points, the emitted DirectX HLSL is compiled again: it must be accepted, reproduce itself byte for byte and keep every binding. 7 000 programs quick, 160 000 thorough, followed by a 300 s libFuzzer campaign with the fixpoint oracle in the target; failures of the generated parts are shrunk on the generator's choice sequence.",
+         "For every generated program (typed generator over structs, enums, templates, overloads, statics, arrays, all statement and operator forms) and every one of the 31 third-party corpus entry points, the emitted DirectX HLSL is compiled again: it must be accepted, reproduce itself byte for byte and keep every binding. 7 000 programs quick, 160 000 thorough, followed by a 300 s libFuzzer campaign with the fixpoint oracle in the target; failures of the generated parts are shrunk on the generator's choice sequence. Also: 10 kinds of entity declared inside a namespace of depth 1 or 2 x 5 places they are named from (100 programs).",
          "Programs rejected by the front end are skipped and counted. One recorded finding (KF-C04-1, template-call ambiguity of `a < b && c > (d)`) is suppressed by signature.",
          "DESIGN.md section 3, C04"),
  "C06": ("exploration",
          "exhaustive enumeration + property-based testing against a reference allocator model",
-         "Every sequence of up to 3 (quick) / 4 (thorough) global declarations over a 32-symbol alphabet (8 resource kind classes x array or not x explicit group or not) is compiled for DirectX, Vulkan, Vulkan with buffer addresses and Metal, in no-pipeline mode and with DefaultBindGroup 0 and 1; random sequences of 1-24 declarations cover the full alphabet (16 kinds, lengths 1-3, groups 0-2 in four spellings, default groups 0-2). The returned metadata must equal a reference bump allocator and, independently of the model, the slot ranges of each group must be disjoint and gap-free from zero. Exhaustive within the stated length; sampled beyond.",
+         "Every sequence of up to 3 (quick) / 4 (thorough) global declarations over a 32-symbol alphabet (8 resource kind classes x array or not x explicit group or not) is compiled for DirectX, Vulkan, Vulkan with buffer addresses and Metal, in no-pipeline mode and with DefaultBindGroup 0 and 1; random sequences of 1-24 declarations cover the full alphabet (16 kinds, lengths 1-3, groups 0-2 in four spellings, default groups 0-2). The returned metadata must equal a reference bump allocator and, independently of the model, the slot ranges of each group must be disjoint and gap-free from zero. Exhaustive within the stated length; sampled beyond. Arrays are also spelled through typedefs of the array type and of the element type.",
          "Trusted: the reference allocator in harness/src/c06.rs. The property's exhaustive bound (length 6 over the full alphabet) is far larger than what is enumerated; arrays of buffer addresses and unbounded arrays are outside the property and not generated.",
          "DESIGN.md section 3, C06"),
  "C16": ("exploration",
          "property-based testing: permutation metamorphic relation + rank-table oracle",
-         "Random sets of 2-5 overloads (1-3 parameters over six scalars x four widths x in/out/inout, each returning a distinct struct) are compiled under every permutation of their declaration order (up to 120) with random argument tuples (lvalues, rvalues, untyped literals); the selected overload is read from the assert_type diagnostic. The outcome must be identical for all permutations, a unique exact match must win, the winner must be viable and not dominated under the documented rank table, and a sole viable candidate must be selected. 6 000 sets quick, 150 000 thorough.",
+         "Random sets of 2-5 overloads (1-3 parameters over six scalars x four widths x in/out/inout, each returning a distinct struct) are compiled under every permutation of their declaration order (up to 120) with random argument tuples (lvalues, rvalues, untyped literals); the selected overload is read from the assert_type diagnostic. The outcome must be identical for all permutations, a unique exact match must win, the winner must be viable and not dominated under the documented rank table, and a sole viable candidate must be selected. 6 000 sets quick, 150 000 thorough. Also: all pairs of one-parameter candidates over 24 value types x 26 argument forms (a third per quick run, all in the thorough tier); with a single argument a better numeric rank dominates.",
          "Trusted: the rank table restated from the documentation comment of typer/src/casting.rs and RSSL's rule that out/inout needs an lvalue of exactly the parameter type. Dominance uses the product order (weakest reading).",
          "DESIGN.md section 3, C16"),
  "C13": ("exploration",
@@ -93,7 +93,7 @@ CHECKS = {
          "DESIGN.md section 3, C10"),
  "C19": ("exploration",
          "property-based testing against two independent layout calculators",
-         "Random struct definitions (nesting <= 3, scalars/vectors/enums/arrays/nested structs) used through every buffer element position are compiled with layout validation on; accept => the harness-computed HLSL and Metal layouts (size and every leaf offset) are identical; reject => the reported sizes/offsets equal the harness-computed ones. 40 000 (quick) / 1 000 000 (thorough) generated programs, shrunk on failure.",
+         "Random struct definitions (nesting <= 3, scalars/vectors/enums/arrays/nested structs) used through every buffer element position are compiled with layout validation on; accept => the harness-computed HLSL and Metal layouts (size and every leaf offset) are identical; reject => the reported sizes/offsets equal the harness-computed ones. 40 000 (quick) / 1 000 000 (thorough) generated programs, shrunk on failure. Buffers are also declared as arrays (one and two dimensions, through typedefs).",
          "Trusted: the HLSL structured-buffer and Metal layout calculators in harness/src/c19.rs, written from the rule set in the property (half=2 bytes, double=8 bytes on both sides).",
          "DESIGN.md section 3, C19"),
  "C11": ("exploration",
